@@ -403,6 +403,8 @@ class Ctx:
                     tf.write(sub + " " + canon(case) + "\n")
             try:
                 fn(ctx, case)
+            except CaseTimeout:
+                ctx.rec.inconc("case_watchdog")
             except Violation as v:
                 holder["case"] = case
                 holder["msg"] = str(v)
@@ -479,6 +481,8 @@ class Ctx:
                 break
             try:
                 fn(self, case)
+            except CaseTimeout:
+                self.rec.inconc("case_watchdog")
             except Violation as v:
                 bad += 1
                 if bad <= max_violations:
